@@ -213,7 +213,7 @@ pub fn selftest(n: u64, seed: u64) -> i32 {
         let cfg = RunCfg { verif: "/verif".into(), tier: Tier::Quick, seed, workers, scenarios: Some(n), write_evidence: false, only: None };
         // the single-worker pass is the slowest; use a third of the seeds there
         let total = if workers == 1 { (n + 2) / 3 } else { n };
-        let (reports, errs, _) = pool(&SelfTest, &cfg, total, &scratch);
+        let (reports, errs, _, _) = pool(&SelfTest, &cfg, total, &scratch);
         let _ = std::fs::remove_dir_all(&scratch);
         let mut bad = errs;
         let mut m = BTreeMap::new();
